@@ -110,11 +110,11 @@ def witness_search(B, what):
     """Replay aid: look for a concrete witness of the abstract disagreement on the real library
     over a fixed parameter lattice (not the deciding step)."""
     np = B.np
-    for r in (256, 1024, 4096, 262144):
-        for a0 in (1.0, 2.0, 3.0, 4.0, 4.5, 5.0, 6.0, 7.0, 8.0):
-            for a1 in (1.0, 0.1, 10.0):
+    for r in (256, 512, 1024, 2048, 4096, 65536, 262144, 1000):
+        for a0 in [0.25 * k for k in range(2, 33)]:
+            for a1 in (1.0, 0.1, 10.0, 0.5):
                 hi = float(r - 1)
-                rows = [[0, 0], [r - 1, r - 1], [r - 2, 1]]
+                rows = [[0, 0], [r - 1, 1], [r - 2, 1]]
                 meta = dict(channels=list(NAMES), amplification_type=[(a0, a1), (0.0, 0.0)],
                             amplifier_gain=[None, 3.0], resolution=[r, r],
                             range=[[0.0, hi], [0.0, hi]])
@@ -222,12 +222,12 @@ def body_mef(B, I):
 
 def witness_search_mef(B, what):
     np = B.np
-    for mi in range(0, 41, 2):
-        for bi in range(0, 71, 5):
+    for mi in range(0, 41):
+        for bi in range(0, 71, 3):
             m, b = 0.85 + mi * 0.01, bi * 0.1
             sc = real_std_curve(B, m, b, 0.0)
-            for hi in (1023.0, 9999.5, 262143.0, 8191.3):
-                rows = [[0.0, 0.0], [hi, hi], [hi / 2, 1.0]]
+            for hi in (1023.0, 9999.5, 262143.0, 8191.3, 31622.7766, 255.0, 4095.0):
+                rows = [[0.0, 0.0], [hi, 1.0], [hi / 2, 1.0]]
                 meta = dict(channels=list(NAMES), range=[[0.0, hi], [0.0, hi]])
                 d = B.sample(rows, 'float64', **meta)
                 out = B.FC.transform.to_mef(d, 0, [sc], [0])
